@@ -224,6 +224,9 @@ PLANS = {
     "C19": {
         "quick": [ex("drp3", "drp", 3, 3, invariants=DEFAULT_INVARIANTS + ["NoLeak"]), ex("drpT", "drpT", 1, 3, invariants=DEFAULT_INVARIANTS + ["NoLeak"]),
                   ex("stat", "stat", 1, 3, kinds=["static", "staticc"], invariants=DEFAULT_INVARIANTS + ["NoLeak"]),
+                  ex("drpK", "drp", 2, 3, kinds=["tslice", "tstream"], invariants=DEFAULT_INVARIANTS + ["NoLeak"]),
+                  ex("pegK", "peg", 2, 2, kinds=["tslice", "tstream"], invariants=DEFAULT_INVARIANTS + ["NoLeak"]),
+                  ex("rcvK", "rcv", 2, 3, kinds=["tslice", "tstream"], modes=["E"], invariants=DEFAULT_INVARIANTS + ["NoLeak"]),
                   rec("drpR", "drp", 2500, 8, 8, invariants=DEFAULT_INVARIANTS + ["NoLeak"]), rec("pegR", "peg", 1000, 8, 8), rec("rcvR", "rcv", 1000, 8, 8)],
         "thorough": [ex("drp4", "drp", 4, 3, invariants=DEFAULT_INVARIANTS + ["NoLeak"]), ex("drpT", "drpT", 1, 4, invariants=DEFAULT_INVARIANTS + ["NoLeak"]),
                      rec("drpR", "drp", 30000, 10, 10, invariants=DEFAULT_INVARIANTS + ["NoLeak"]), rec("pegR", "peg", 20000, 10, 10), rec("rcvR", "rcv", 20000, 10, 10),
